@@ -273,6 +273,93 @@ Definition j_hint (step : Z) (args : list val) (out : val) : verdict :=
   | _ => JSkip
   end.
 
+(** ** the remaining operator surface: compound assignment ([x += d] is [x = x + d]), subtraction of
+    a reference, and a FixedOffset operand, which stands for its number of seconds: on a naive
+    date-time [a +- off] is the value [off] seconds later / earlier; on a zone-aware value the
+    instant moves by [off] seconds and the value's own offset is carried along unchanged.  Checked
+    form: refusal exactly when that instant is not representable; operator form: PANIC there. *)
+Definition j_sg3 (j : Z -> list val -> val -> verdict) (args : list val) (out : val) : verdict :=
+  match args with
+  | [a; sg; x] => match sign_of sg with Some s => j s [a; x] out | None => JSkip end
+  | _ => JSkip
+  end.
+Definition off_of (v : val) : option Z :=
+  match v with VInt o => if (-86400 <? o) && (o <? 86400) then Some o else None | _ => None end.
+Definition j_n_off (op_form : bool) (args : list val) (out : val) : verdict :=
+  match args with
+  | [a; sg; o] =>
+      match inst_of_ndt a, sign_of sg, off_of o with
+      | AInst t, Some s, Some off => judge_eq (wrap op_form (exp_inst (t + s * off * G))) out
+      | _, _, _ => JSkip
+      end
+  | _ => JSkip
+  end.
+Definition j_z_off (args : list val) (out : val) : verdict :=
+  match args with
+  | [a; sg; o] =>
+      match inst_of_dtz a, sign_of sg, off_of o with
+      | (AInst t, zoff), Some s, Some off => judge_eq (wrap true (exp_zinst zoff (t + s * off * G))) out
+      | _, _, _ => JSkip
+      end
+  | _ => JSkip
+  end.
+
+(** ** adaptors over the same sequence of items: [count] is the number of items, [last] the final
+    one, [len] the exact length (forward), [step_by(st)] every st-th item beginning with the first,
+    [rev()] the sequence driven from the other end.  The ops that run to the end are only asked
+    within ten years of that end. *)
+Definition near_end_j (v : val) (fwd : bool) : bool :=
+  match v with
+  | VTup [VInt y; _] => if fwd then 262133 <=? y else y <=? -262134
+  | _ => false
+  end.
+Definition j_end (f : Z -> Z -> bool -> val) (step : Z) (args : list val) (out : val) : verdict :=
+  match args with
+  | [d; dir] =>
+      match dn_of_date d, dir_of dir with
+      | Some s, Some fwd => if near_end_j d fwd then judge_eq (f step s fwd) out else JSkip
+      | _, _ => JSkip
+      end
+  | _ => JSkip
+  end.
+Definition exp_count (step s : Z) (fwd : bool) : val := VInt (it_remaining step s 0 fwd).
+Definition exp_last (step s : Z) (fwd : bool) : val :=
+  if it_avail step s fwd <=? 0 then VNone else it_item step s (it_avail step s fwd - 1) fwd.
+Definition j_len (step : Z) (args : list val) (out : val) : verdict :=
+  match args with
+  | [d; k] =>
+      match dn_of_date d, small_of k with
+      | Some s, Some k => judge_eq (VInt (it_remaining step s k true)) out
+      | _, _ => JSkip
+      end
+  | _ => JSkip
+  end.
+Fixpoint exp_steps (step s st : Z) (fwd : bool) (i : Z) (n : nat) : list val :=
+  match n with
+  | O => []
+  | S n' =>
+      match it_item step s (i * st) fwd with
+      | VSome x => x :: exp_steps step s st fwd (i + 1) n'
+      | _ => []
+      end
+  end.
+Definition j_step (step : Z) (args : list val) (out : val) : verdict :=
+  match args with
+  | [d; dir; st; cap] =>
+      match dn_of_date d, dir_of dir, small_of st, small_of cap with
+      | Some s, Some fwd, Some st, Some cap =>
+          if (1 <=? st) && (cap <=? 60) then judge_eq (VTup (exp_steps step s st fwd 0 (Z.to_nat cap))) out
+          else JSkip
+      | _, _, _, _ => JSkip
+      end
+  | _ => JSkip
+  end.
+Definition j_rev (step : Z) (args : list val) (out : val) : verdict :=
+  match args with
+  | [d; k; VInt dir; cap] => j_it step [d; k; VInt (1 - dir); cap] out
+  | _ => JSkip
+  end.
+
 Definition judge (op : bytes) (args : list val) (out : val) : verdict :=
   if op_is op "ar.nadd" then j_n_td false 1 args out
   else if op_is op "ar.nsub" then j_n_td false (-1) args out
@@ -312,4 +399,22 @@ Definition judge (op : bytes) (args : list val) (out : val) : verdict :=
   else if op_is op "it.wnth" then j_nth 7 args out
   else if op_is op "it.dhint" then j_hint 1 args out
   else if op_is op "it.whint" then j_hint 7 args out
+  else if op_is op "ar.opdasg" then j_sg3 (j_d_td true) args out
+  else if op_is op "ar.opnasg" then j_sg3 (j_n_td true) args out
+  else if op_is op "ar.stdasg" then j_n_std args out
+  else if op_is op "ar.zstdasg" then j_z_std args out
+  else if op_is op "ar.opzdiffref" then j_z_z args out
+  else if op_is op "ar.noff" then j_n_off false args out
+  else if op_is op "ar.opnoff" then j_n_off true args out
+  else if op_is op "ar.opzoff" then j_z_off args out
+  else if op_is op "it.dcount" then j_end exp_count 1 args out
+  else if op_is op "it.wcount" then j_end exp_count 7 args out
+  else if op_is op "it.dlast" then j_end exp_last 1 args out
+  else if op_is op "it.wlast" then j_end exp_last 7 args out
+  else if op_is op "it.dlen" then j_len 1 args out
+  else if op_is op "it.wlen" then j_len 7 args out
+  else if op_is op "it.dstep" then j_step 1 args out
+  else if op_is op "it.wstep" then j_step 7 args out
+  else if op_is op "it.drev" then j_rev 1 args out
+  else if op_is op "it.wrev" then j_rev 7 args out
   else JSkip.
